@@ -63,6 +63,8 @@ Corrupt(k, how) ==
                               /\ payload' = [payload EXCEPT ![k].typ = "other"] /\ UNCHANGED sig
        [] how = "stype"    -> HasSig(k)
                               /\ sig' = [sig EXCEPT ![k].typ = "other"] /\ UNCHANGED payload
+       [] how = "sigalter" -> sig[k].typ = "str"     \* the signature TEXT is altered (still a string)
+                              /\ sig' = [sig EXCEPT ![k].v = "~garbage"] /\ UNCHANGED payload
        [] how = "delsig"   -> HasSig(k) /\ sig' = [sig EXCEPT ![k] = NoSig] /\ UNCHANGED payload
        [] how = "delpay"   -> HasPayload(k) /\ payload' = [payload EXCEPT ![k] = NoPayload] /\ UNCHANGED sig
   /\ complete' = [complete EXCEPT ![k] = Absent]
@@ -95,7 +97,7 @@ Get(k) ==
   /\ unverified' = (unverified \/ (o[4] /\ ~Verified(k)))
   /\ Log(<<"get", k, o[1], IF o[1] = "hit" THEN payload[k].v ELSE "-", IF o[4] THEN "unpickled" ELSE "-">>)
 
-Hows == {"flip", "truncate", "ptype", "stype", "delsig", "delpay"}
+Hows == {"flip", "truncate", "ptype", "stype", "sigalter", "delsig", "delpay"}
 Next == \/ \E k \in Keys, v \in Vals : SetFull(k, v) \/ SetTorn(k, v)
         \/ \E k \in Keys, h \in Hows : Corrupt(k, h)
         \/ \E k \in Keys : Get(k)
